@@ -114,10 +114,16 @@ func init() {
 		if s.eng.cfg.Domain != DomainX {
 			panic(abortf("sym.Float64Grid outside domain X"))
 		}
-		t := s.newInput(argStr(a[0]), SInt)
 		lim := new(big.Int).Lsh(big.NewInt(1), uint(k))
-		s.assume(s.ctx.And(s.ctx.Le(s.ctx.IntConstBig(new(big.Int).Neg(lim)), t), s.ctx.Le(t, s.ctx.IntConstBig(lim))))
 		q := new(big.Rat).SetInt(lim)
+		if s.eng.cfg.RealInputs {
+			t := s.newInput(argStr(a[0]), SReal)
+			s.assumeRaw(s.ctx.And(s.ctx.Le(s.ctx.RealConst(new(big.Rat).Neg(q)), t), s.ctx.Le(t, s.ctx.RealConst(q))))
+			s.setInfo(t, &FInfo{exact: false, scale: -1, lo: new(big.Rat).Neg(q), hi: q})
+			return t
+		}
+		t := s.newInput(argStr(a[0]), SInt)
+		s.assumeRaw(s.ctx.And(s.ctx.Le(s.ctx.IntConstBig(new(big.Int).Neg(lim)), t), s.ctx.Le(t, s.ctx.IntConstBig(lim))))
 		s.setInfo(t, &FInfo{exact: true, scale: 0, lo: new(big.Rat).Neg(q), hi: q})
 		return t
 	})
@@ -127,8 +133,14 @@ func init() {
 		if s.eng.cfg.Domain != DomainX {
 			panic(abortf("sym.Float64Range outside domain X"))
 		}
+		if s.eng.cfg.RealInputs {
+			t := s.newInput(argStr(a[0]), SReal)
+			s.assumeRaw(s.ctx.And(s.ctx.Le(s.ctx.RealConst(big.NewRat(lo, 1)), t), s.ctx.Le(t, s.ctx.RealConst(big.NewRat(hi, 1)))))
+			s.setInfo(t, &FInfo{exact: false, scale: -1, lo: big.NewRat(lo, 1), hi: big.NewRat(hi, 1)})
+			return t
+		}
 		t := s.newInput(argStr(a[0]), SInt)
-		s.assume(s.ctx.And(s.ctx.Le(s.ctx.IntConst(lo), t), s.ctx.Le(t, s.ctx.IntConst(hi))))
+		s.assumeRaw(s.ctx.And(s.ctx.Le(s.ctx.IntConst(lo), t), s.ctx.Le(t, s.ctx.IntConst(hi))))
 		s.setInfo(t, &FInfo{exact: true, scale: 0, lo: big.NewRat(lo, 1), hi: big.NewRat(hi, 1)})
 		return t
 	})
@@ -181,6 +193,59 @@ func init() {
 		}
 		return a[0]
 	})
+	reg(symPkg+".Param", func(s *State, fn *ssa.Function, a []Value) Value {
+		if v, ok := debugParams[argStr(a[0])]; ok {
+			return c64(s, v)
+		}
+		return a[1]
+	})
+	reg(symPkg+".Replace", func(s *State, fn *ssa.Function, a []Value) Value {
+		// Replace(name, f): calls to the function called name are redirected to the harness closure f
+		// (a summary/stub; every use is listed in the evidence as an assumption of the run)
+		iv := a[1].(Iface)
+		cl, ok := iv.val.(*Closure)
+		if !ok || cl == nil {
+			panic(abortf("sym.Replace needs a function value"))
+		}
+		if s.replacements == nil {
+			s.replacements = map[string]*Closure{}
+		}
+		name := argStr(a[0])
+		if !s.eng.funcExists(name) {
+			panic(abortf("sym.Replace: no function %q in the program (renamed or removed?)", name))
+		}
+		s.replacements[name] = cl
+		if s.run.replaced == nil {
+			s.run.replaced = map[string]bool{}
+		}
+		s.run.replaced[name] = true
+		return nil
+	})
+	reg(symPkg+".Original", func(s *State, fn *ssa.Function, a []Value) Value {
+		// Original(name) temporarily removes a replacement (used by summaries that fall back to the real code)
+		delete(s.replacements, argStr(a[0]))
+		return nil
+	})
+	reg(symPkg+".UFReal", func(s *State, fn *ssa.Function, a []Value) Value {
+		name := argStr(a[0])
+		args := sliceTerms(s, a[2])
+		if s.eng.cfg.Domain == DomainX {
+			rs := make([]*Term, len(args))
+			for i, t := range args {
+				rs[i] = s.ctx.ToReal(t)
+			}
+			r := s.ctx.UF("uf."+name, SReal, rs...)
+			s.setInfo(r, &FInfo{exact: false, scale: -1})
+			s.run.ufOps++
+			return r
+		}
+		if s.eng.cfg.Domain == DomainB {
+			s.run.ufOps++
+			return s.ctx.UF("uf."+name, BV(64), args...)
+		}
+		panic(abortf("sym.UFReal in domain K"))
+	})
+	reg(symPkg+".Register", func(s *State, fn *ssa.Function, a []Value) Value { return s.ctx.True() })
 	reg(symPkg+".Symbolic", func(s *State, fn *ssa.Function, a []Value) Value {
 		return s.ctx.True()
 	})
